@@ -15,17 +15,20 @@ LEVEL = "other"
 EXPLANATION = (
     "Only the two clauses whose truth is in the shape of the code: (1) whenever an introduction response carries a "
     "non-null introduction, every path also sends a puncture request - built from the requester's LAN/WAN addresses and "
-    "the request identifier - to the introduced peer, the requester itself is never introduced, and every answered IPv4 "
+    "the request identifier and packed for the same community prefix as the response - to the introduced peer, the requester itself is never introduced, and every answered IPv4 "
     "introduction request first records the requester's LAN address (the only source of the LAN address handed out later); (2) the LAN/WAN "
     "selection at the requester and the puncture target at the introduced peer are evaluated as decision tables over "
     "their atoms (wan known, lan known, same public IP) and must equal the stated tables. The functions are evaluated "
     "symbolically path by path (locals substituted by their values, conditions forked on their atoms; helpers that the "
     "reviewed tree does not have, local defs, lambdas, generators and callables picked from dict/tuple dispatch tables are "
-    "entered with their parameters bound to the caller's values), so the verdict "
+    "entered with their parameters bound to the caller's values; NamedTuple / dataclass / small new-class objects created on a path "
+    "keep their field values, so result objects, callable objects, Enum decisions, functools.partial / operator / itertools pipelines "
+    "and contextlib.suppress are evaluated by what they compute), so the verdict "
     "does not depend on how the branches, locals or helpers are spelled. Two freshness clauses complete (1) and (2): the "
     "same-NAT test of a response reads the own-WAN estimate as updated by that response, and the wrapper of the signed "
     "introduction handlers records the packet's source address with a known peer on every packet (the address that is "
-    "handed out and punctured towards). Reachability for the 4x4 NAT "
+    "handed out and punctured towards). The contact attempt itself: for a service, Network.get_walkable_addresses holds back only the "
+    "addresses of the peers verified for that service (the Network is shared by all overlays of a node). Reachability for the 4x4 NAT "
     "matrix needs a filtering/translating network model and is not decided."
 )
 
@@ -120,6 +123,7 @@ class _Path:
     ver: dict = field(default_factory=dict)
     forked: list = field(default_factory=list)     # keys that were decided by forking (not preset, not derived)
     pretty: dict = field(default_factory=dict)
+    meta: dict = field(default_factory=dict)
 
     def extra(self) -> str:
         """the conditions this path assumed beyond the rule's own atoms, readable"""
@@ -193,9 +197,166 @@ def _literal_table(e) -> bool:
     return isinstance(e, (ast.Tuple, ast.List)) and not any(isinstance(x, ast.Starred) for x in e.elts)
 
 
+_PROPERTY = {"property", "cached_property", "functools.cached_property"}
+
+
+# ---------------------------------------------------------------------------------------------------------------------
+# Objects created on the evaluated path.  `R(a, b).x`, a NamedTuple / dataclass / small class instance returned by a decision
+# helper and read back by the caller, a callable object replacing a closure: the value is still the constructor call (so its
+# text is what it always was), but it carries what the language defines about it - its class and its attribute values - and
+# attribute reads, item reads, unpacking, truth tests, isinstance, class patterns and method calls are answered from that.
+# ---------------------------------------------------------------------------------------------------------------------
+
+class _Cls:
+    """a class definition as the evaluation needs it: module level (ClassInfo) or local to a function body (ClassDef)"""
+
+    def __init__(self, node: ast.ClassDef, info: ClassInfo | None = None, env: dict | None = None) -> None:
+        self.node, self.info, self.env = node, info, env
+        self.name = node.name
+
+    def methods(self) -> dict:
+        if self.info is not None:
+            return dict(self.info.methods)
+        return {st.name: st for st in self.node.body if isinstance(st, (ast.FunctionDef, ast.AsyncFunctionDef))}
+
+    def method(self, name: str):
+        return self.methods().get(name)
+
+    def attr(self, name: str):
+        """value of the class-level assignment `name = value` / `name: T = value`"""
+        for st in self.node.body:
+            if isinstance(st, ast.Assign) and any(isinstance(t, ast.Name) and t.id == name for t in st.targets):
+                return st.value
+            if isinstance(st, ast.AnnAssign) and isinstance(st.target, ast.Name) and st.target.id == name and st.value is not None:
+                return st.value
+        return None
+
+    def bases(self) -> list[str]:
+        out = []
+        for b in self.node.bases:
+            c = chain(b.value if isinstance(b, ast.Subscript) else b)
+            out.append((c or norm(b)).split(".")[-1])
+        return out
+
+    def decorators(self) -> list[ast.expr]:
+        return list(self.node.decorator_list)
+
+    def same(self, other: "_Cls") -> bool:
+        return other.node is self.node
+
+    def annotated(self) -> list[ast.AnnAssign]:
+        return [st for st in self.node.body if isinstance(st, ast.AnnAssign) and isinstance(st.target, ast.Name)]
+
+
+_UNMODELLED_HOOKS = {"__new__", "__setattr__", "__getattr__", "__getattribute__", "__delattr__", "__init_subclass__", "__set_name__",
+                     "__get__", "__set__", "__eq__", "__hash__"}
+
+
+def _deco_names(fn) -> set[str]:
+    node = fn.node if isinstance(fn, FuncInfo) else fn
+    out = set()
+    for d in node.decorator_list:
+        out.add(chain(d.func if isinstance(d, ast.Call) else d) or norm(d))
+    return out
+
+
+def _class_kind(c: _Cls) -> str | None:
+    """tuple (typing.NamedTuple) | data (@dataclass) | plain (attributes set by its own methods) | None (not modelled)"""
+    if c.node.keywords or set(c.methods()) & _UNMODELLED_HOOKS:
+        return None
+    bases, decos = c.bases(), c.decorators()
+    if bases == ["NamedTuple"] and not decos and "__init__" not in c.methods():
+        return "tuple"
+    if not set(bases) <= {"object", "Generic"}:
+        return None
+    if len(decos) == 1:
+        d = decos[0]
+        name = chain(d.func if isinstance(d, ast.Call) else d) or ""
+        if name.split(".")[-1] != "dataclass" or "__init__" in c.methods():
+            return None
+        if isinstance(d, ast.Call) and (d.args or any(k.arg in (None, "init", "eq", "order") for k in d.keywords)):
+            return None
+        return "data"
+    if decos:
+        return None
+    if c.info is not None and not all(_is_new(m) for m in c.info.methods.values()):
+        return None                                      # a class of the reviewed tree: its constructor stays an opaque call
+    if any(isinstance(st, ast.AnnAssign) and st.value is None for st in c.node.body) and "__init__" not in c.methods():
+        return None                                      # declared but unset fields: some base machinery is expected
+    return "plain"
+
+
+_NT_CACHE: dict[int, tuple] = {}
+
+
+def _functional_namedtuple(name: str, e: ast.expr) -> _Cls | None:
+    """`X = namedtuple("X", "a b")` / `X = NamedTuple("X", [("a", T), ...])` as the class definition it abbreviates"""
+    if id(e) in _NT_CACHE and _NT_CACHE[id(e)][0] is e:
+        return _NT_CACHE[id(e)][1]
+    out = None
+    if isinstance(e, ast.Call) and (chain(e.func) or "").split(".")[-1] in ("namedtuple", "NamedTuple") and len(e.args) == 2 and not e.keywords:
+        spec, names = e.args[1], None
+        if isinstance(const_value(spec), str):
+            names = const_value(spec).replace(",", " ").split()
+        elif isinstance(spec, (ast.List, ast.Tuple)):
+            names = []
+            for x in spec.elts:
+                if isinstance(x, ast.Tuple) and len(x.elts) == 2:
+                    x = x.elts[0]
+                if not isinstance(const_value(x), str):
+                    names = None
+                    break
+                names.append(const_value(x))
+        if names and all(n.isidentifier() for n in names):
+            out = _Cls(ast.parse(f"class {name}(NamedTuple):\n" + "".join(f"    {n}: object\n" for n in names)).body[0])
+    _NT_CACHE[id(e)] = (e, out)
+    return out
+
+
+class _Rec:
+    """what is known of an object created on the evaluated path"""
+    __slots__ = ("cls", "kind", "names", "fields")
+
+    def __init__(self, cls: _Cls | None, kind: str, names: list[str], fields: dict) -> None:
+        self.cls, self.kind, self.names, self.fields = cls, kind, names, fields
+
+
+def _rec(v) -> _Rec | None:
+    return getattr(v, "_rec", None)
+
+
+def _fn(v):
+    return getattr(v, "_fn", None)
+
+
+def _items(v) -> list | None:
+    """the elements of a value whose elements are known in order: list / tuple literal, NamedTuple object"""
+    if isinstance(v, (ast.List, ast.Tuple)) and not any(isinstance(x, ast.Starred) for x in v.elts):
+        return list(v.elts)
+    r = _rec(v)
+    if r is not None and r.kind == "tuple":
+        return [r.fields[n] for n in r.names]
+    return None
+
+
+def _int(e) -> int | None:
+    c = const_value(e) if e is not None else None
+    return c if isinstance(c, int) and not isinstance(c, bool) and not _noconst(c) else None
+
+
+_BUILTIN_FUNCS = {"filter", "map", "dict", "len", "list", "tuple", "iter", "next", "any", "all", "bool", "isinstance", "getattr", "sum", "sorted",
+                  "reversed", "enumerate", "zip", "range", "callable", "min", "max", "set", "frozenset"}
+
+_OPERATOR_CMP = {"eq": ast.Eq, "ne": ast.NotEq, "lt": ast.Lt, "le": ast.LtE, "gt": ast.Gt, "ge": ast.GtE, "is_": ast.Is, "is_not": ast.IsNot}
+_OPERATOR_BIN = {"add": ast.Add, "sub": ast.Sub, "mul": ast.Mult, "mod": ast.Mod, "floordiv": ast.FloorDiv, "and_": ast.BitAnd, "or_": ast.BitOr,
+                 "xor": ast.BitXor, "lshift": ast.LShift, "rshift": ast.RShift, "concat": ast.Add}
+
+
 class _Run:
-    def __init__(self, fi: FuncInfo, preset: dict, prefix: list, repo=None) -> None:
+    def __init__(self, fi: FuncInfo, preset: dict, prefix: list, repo=None, driver=None) -> None:
         self.fi = fi
+        self.driver = driver                          # what to evaluate instead of the plain body of fi (see _wrapper_driver)
+        self.meta: dict = {}                          # what the driver wants the rule to know about this path
         self.repo = repo if repo is not None else _REPO
         self.frames: list[FuncInfo] = [fi]            # the function being evaluated and the helpers it is currently inside
         self.active: list = []                        # function nodes being evaluated (recursion guard)
@@ -205,6 +366,9 @@ class _Run:
         self.defenv: dict[int, dict] = {}             # lambda / local def -> locals of the frame that created it
         self.catching = 0                             # enclosing try statements (also of callers) that catch KeyError
         self.outer: list[dict] = []                   # locals of the callers of the helper being evaluated
+        self.records: list[_Rec] = []                 # objects created on this path (their fields may hold lists that are appended to)
+        self.imported: dict[str, str] = {}            # names imported inside the evaluated bodies -> dotted origin
+        self.local_classes: dict[str, _Cls] = {}      # classes defined inside the evaluated bodies
         self.preset = preset
         self.prefix = prefix
         self.trace: list[bool] = []
@@ -221,7 +385,10 @@ class _Run:
     def go(self) -> _Path:
         p = _Path()
         try:
-            self.block(self.fi.node.body)
+            if self.driver is not None:
+                p.ret = self.driver(self)
+            else:
+                self.block(self.fi.node.body)
         except _Ret as r:
             p.ret = r.value
         except _Rse:
@@ -229,8 +396,38 @@ class _Run:
         except (_Brk, _Cnt):
             raise AnalysisError(f"undecided: break/continue outside a loop in {self.fi.qualname}") from None
         p.calls, p.stores, p.facts, p.env, p.ver, p.forked = self.calls, self.stores, self.facts, self.env, self.ver, self.forked
-        p.pretty = self.pretty
+        p.pretty, p.meta = self.pretty, self.meta
         return p
+
+    def body_value(self, node) -> ast.expr:
+        """value returned by the body of a function whose parameters are left symbolic"""
+        try:
+            self.block(node.body)
+        except _Ret as r:
+            return r.value if r.value is not None else ast.Constant(value=None)
+        return ast.Constant(value=None)
+
+    def signature(self, v: ast.expr) -> list[str] | None:
+        """parameter names (without the receiver) of an evaluated callable that this evaluation would enter; None: it would not"""
+        r = _rec(v)
+        if r is not None:
+            m = r.cls.method("__call__") if r.cls is not None else None
+            if m is None or not self.followable(r.cls, m):
+                return None
+            a = (m.node if isinstance(m, FuncInfo) else m).args
+            return [x.arg for x in a.posonlyargs + a.args][1:]
+        if getattr(v, "_partial", None) is not None:
+            inner, n, named = v._partial
+            names = self.signature(inner)
+            return None if names is None else [x for x in names[n:] if x not in named]
+        tgt = self.target(v)
+        if tgt is None:
+            return None
+        a = (tgt.node if isinstance(tgt, FuncInfo) else tgt).args
+        names = [x.arg for x in a.posonlyargs + a.args]
+        if isinstance(tgt, FuncInfo) and tgt.cls is not None and isinstance(v, ast.Attribute) and "staticmethod" not in _deco_names(tgt):
+            names = names[1:]
+        return names
 
     def undecided(self, what: str):
         return AnalysisError(f"undecided: symbolic evaluation of {self.fi.qualname} does not support {what}")
@@ -322,10 +519,12 @@ class _Run:
             pol = isinstance(op, ast.Is)
             if isinstance(l, ast.Constant) and l.value is None:
                 l, r = r, l
+            if isinstance(l, ast.Constant) and isinstance(r, ast.Constant) and any(isinstance(x.value, (bool, type(None))) for x in (l, r)):
+                return None, (l.value is r.value) == pol          # True / False / None are singletons
             if isinstance(r, ast.Constant) and r.value is None:
                 if isinstance(l, ast.Constant):
                     return None, (l.value is None) == pol
-                if isinstance(l, (ast.Tuple, ast.List, ast.Dict, ast.Set, ast.JoinedStr)):
+                if isinstance(l, (ast.Tuple, ast.List, ast.Dict, ast.Set, ast.JoinedStr, ast.Lambda)) or _rec(l) is not None or _fn(l) is not None:
                     return None, not pol
                 g = _is_get(l)
                 if g is not None:                        # D.get(k) is None  <=>  k not in D   (values are never None)
@@ -348,6 +547,24 @@ class _Run:
         v = strip_cast(v)
         if isinstance(v, ast.Constant):
             return bool(v.value)
+        r = _rec(v)
+        if r is not None:
+            if r.kind == "tuple":
+                return bool(r.names)                     # a NamedTuple object is a tuple of its fields
+            if r.cls is not None and r.cls.method("__bool__") is not None:
+                got = self.rec_call(v, r, "__bool__", [], [], None)
+                if got is None:
+                    raise self.undecided(f"truth of a {r.cls.name} object")
+                return self.truth(got)
+            if r.cls is not None and r.cls.method("__len__") is not None:
+                raise self.undecided(f"truth of a {r.cls.name} object with __len__")
+            return True
+        if _fn(v) is not None or isinstance(v, ast.Lambda):
+            return True
+        if isinstance(v, ast.Call) and isinstance(v.func, ast.Name) and v.func.id == "isinstance" and len(v.args) == 2 and not v.keywords:
+            known = self.isinstance_of(v.args[0], v.args[1])
+            if known is not None:
+                return known
         if isinstance(v, (ast.List, ast.Tuple, ast.Set)) and not any(isinstance(e, ast.Starred) for e in v.elts):
             return bool(v.elts)
         if isinstance(v, ast.Dict) and all(k is not None for k in v.keys):
@@ -372,6 +589,18 @@ class _Run:
                         return False
                     left = right
                     continue
+                # a comparison result compared with True / False: `(a != b) is True`, `flag == False`
+                lb, rb_ = strip_cast(left), strip_cast(right)
+                flag = rb_ if isinstance(rb_, ast.Constant) and isinstance(rb_.value, bool) else \
+                    lb if isinstance(lb, ast.Constant) and isinstance(lb.value, bool) else None
+                other = lb if flag is rb_ else rb_
+                if flag is not None and isinstance(op, (ast.Is, ast.IsNot, ast.Eq, ast.NotEq)) and _boolish(other) \
+                        and not isinstance(other, ast.Constant):
+                    val = (self.truth(other) == flag.value) == isinstance(op, (ast.Is, ast.Eq))
+                    if not val:
+                        return False
+                    left = right
+                    continue
                 key, pol = self.cmp_key(left, op, right)
                 val = pol if key is None else (self.lookup(key) == pol)
                 if not val:
@@ -388,6 +617,23 @@ class _Run:
         key = "t:" + _t(v)
         self.pretty.setdefault(key, (_t(v), f"not {_t(v)}"))
         return self.lookup(key)
+
+    def isinstance_of(self, x: ast.expr, classes: ast.expr):
+        """isinstance(x, classes) for an object created on this path and classes that resolve to definitions; None: not known"""
+        r = _rec(x)
+        if r is None or r.cls is None:
+            return None
+        out = False
+        for a in (classes.elts if isinstance(classes, ast.Tuple) else [classes]):
+            if isinstance(a, ast.Name) and a.id in ("tuple", "object") and a.id not in self.env:
+                hit = a.id == "object" or r.kind == "tuple"
+            else:
+                pc = self.class_of(a)
+                if pc is None or _class_kind(pc) is None:
+                    return None
+                hit = r.cls.same(pc)                     # modelled classes have no modelled subclasses
+            out = out or hit
+        return out
 
     def key_of(self, text: str):
         """(key, polarity) of an atom given as source text (no locals)"""
@@ -410,25 +656,9 @@ class _Run:
                 return self.env[e.id]
             return self.versioned(ast.Name(id=e.id, ctx=ast.Load()))
         if isinstance(e, ast.Attribute):
-            b = self.base(self.ev(e.value))
-            a = ast.Attribute(value=b, attr=e.attr, ctx=ast.Load())
-            if self.repo is not None and e.attr in _new_names(self.repo):
-                tgt = self.target(a)
-                if isinstance(tgt, FuncInfo) and {"property", "cached_property", "functools.cached_property"} & set(tgt.decorator_names()):
-                    return self.follow(tgt, a, [], [], None)          # a property the reviewed tree does not have: its getter
-            return self.versioned(a)
+            return self.attribute(self.ev(e.value), e.attr)
         if isinstance(e, ast.Subscript):
-            b = self.base(self.ev(e.value))
-            k = self.ev(e.slice)
-            if _literal_table(b) and not isinstance(k, ast.Slice):
-                return self.select(b, k, None)             # a literal indexed on the spot denotes the selected element
-            if self.catching and not isinstance(k, ast.Slice) and not isinstance(const_value(k), int):
-                # a lookup inside `try: ... except KeyError:` - the handler is the `k not in D` branch
-                kin = f"in:{_t(k)}:{_t(b)}"
-                self.pretty.setdefault(kin, (f"{_t(k)} in {_t(b)}", f"{_t(k)} not in {_t(b)}"))
-                if not self.lookup(kin):
-                    raise _Exc("KeyError")
-            return self.versioned(ast.Subscript(value=b, slice=k, ctx=ast.Load()))
+            return self.subscript(self.ev(e.value), self.ev(e.slice))
         if isinstance(e, ast.Slice):
             return ast.Slice(lower=self.ev(e.lower) if e.lower else None, upper=self.ev(e.upper) if e.upper else None,
                              step=self.ev(e.step) if e.step else None)
@@ -450,9 +680,7 @@ class _Run:
             return ast.UnaryOp(op=e.op, operand=self.ev(e.operand))
         if isinstance(e, ast.BinOp):
             l, r = self.ev(e.left), self.ev(e.right)
-            if isinstance(e.op, ast.Add) and type(l) is type(r) and isinstance(l, (ast.List, ast.Tuple)):
-                return type(l)(elts=[*l.elts, *r.elts], ctx=ast.Load())          # concatenation of two literals
-            return ast.BinOp(left=l, op=e.op, right=r)
+            return self.binop(l, e.op, r)
         if isinstance(e, ast.Compare):
             return ast.Compare(left=self.ev(e.left), ops=list(e.ops), comparators=[self.ev(c) for c in e.comparators])
         if isinstance(e, ast.IfExp):
@@ -460,8 +688,8 @@ class _Run:
         if isinstance(e, (ast.Tuple, ast.List, ast.Set)):
             elts = []
             for x in (self.ev(x) for x in e.elts):
-                if isinstance(x, ast.Starred) and isinstance(x.value, (ast.List, ast.Tuple)):
-                    elts.extend(x.value.elts)            # `[*[a, b], c]` is `[a, b, c]`
+                if isinstance(x, ast.Starred) and _items(x.value) is not None:
+                    elts.extend(_items(x.value))         # `[*[a, b], c]` is `[a, b, c]`
                 else:
                     elts.append(x)
             return type(e)(elts=elts, **({} if isinstance(e, ast.Set) else {"ctx": ast.Load()}))
@@ -469,6 +697,14 @@ class _Run:
             return ast.Dict(keys=[self.ev(k) if k is not None else None for k in e.keys], values=[self.ev(v) for v in e.values])
         if isinstance(e, (ast.ListComp, ast.SetComp, ast.GeneratorExp)):
             return self.comprehension(e)
+        if isinstance(e, ast.DictComp):
+            pairs = self.comprehension(ast.ListComp(elt=ast.Tuple(elts=[e.key, e.value], ctx=ast.Load()), generators=e.generators))
+            if any(isinstance(n, ast.Name) and n.id.startswith("each(") for x in pairs.elts for n in ast.walk(x)):
+                # built from a representative element of an unknown iterable: not a table whose keys are all known
+                return ast.Call(func=ast.Name(id="dict", ctx=ast.Load()), args=[pairs], keywords=[])
+            if len({_t(x.elts[0]) for x in pairs.elts}) != len(pairs.elts):
+                raise self.undecided("a dict comprehension with repeated keys")
+            return ast.Dict(keys=[x.elts[0] for x in pairs.elts], values=[x.elts[1] for x in pairs.elts])
         if isinstance(e, ast.NamedExpr):
             v = self.ev(e.value)
             self.env[e.target.id] = v
@@ -486,6 +722,46 @@ class _Run:
             self.defenv[id(e)] = self.env
             return e
         raise self.undecided(f"expression `{norm(e)[:60]}`")
+
+    def attribute(self, b: ast.expr, attr: str) -> ast.expr:
+        """value of `b.attr` for an evaluated b"""
+        b = self.base(b)
+        r = _rec(b)
+        if r is not None:
+            return self.rec_attr(b, r, attr)
+        m = self.enum_member(b)
+        if m is not None:
+            v = self.enum_attr(b, m, attr)
+            if v is not None:
+                return v
+        a = ast.Attribute(value=b, attr=attr, ctx=ast.Load())
+        if self.repo is not None and attr in _new_names(self.repo):
+            tgt = self.target(a)
+            if isinstance(tgt, FuncInfo) and _PROPERTY & set(tgt.decorator_names()):
+                return self.follow(tgt, a, [], [], None)          # a property the reviewed tree does not have: its getter
+        return self.versioned(a)
+
+    def subscript(self, b: ast.expr, k: ast.expr) -> ast.expr:
+        """value of `b[k]` for evaluated b and k"""
+        b = self.base(b)
+        r = _rec(b)
+        if r is not None:
+            v = self.rec_item(b, r, k)
+            if v is not None:
+                return v
+        if _literal_table(b) and not isinstance(k, ast.Slice):
+            return self.select(b, k, None)             # a literal indexed on the spot denotes the selected element
+        if isinstance(k, ast.Slice) and isinstance(b, (ast.List, ast.Tuple)) and not any(isinstance(x, ast.Starred) for x in b.elts):
+            cs = [None if x is None else const_value(x) for x in (k.lower, k.upper, k.step)]
+            if all(c is None or (isinstance(c, int) and not _noconst(c)) for c in cs):
+                return type(b)(elts=b.elts[slice(*cs)], ctx=ast.Load())      # a slice of a literal with constant bounds
+        if self.catching and not isinstance(k, ast.Slice) and not isinstance(const_value(k), int):
+            # a lookup inside `try: ... except KeyError:` - the handler is the `k not in D` branch
+            kin = f"in:{_t(k)}:{_t(b)}"
+            self.pretty.setdefault(kin, (f"{_t(k)} in {_t(b)}", f"{_t(k)} not in {_t(b)}"))
+            if not self.lookup(kin):
+                raise _Exc("KeyError")
+        return self.versioned(ast.Subscript(value=b, slice=k, ctx=ast.Load()))
 
     @staticmethod
     def base(b: ast.expr) -> ast.expr:
@@ -576,11 +852,11 @@ class _Run:
             self.outer.pop()
             self.env = saved
 
-    def set_list(self, name: str, value: ast.List) -> None:
-        """in-place change of a list held in a local: every local (of this frame and of the callers) that is bound to the same
-        list object - `out = introductions`, a list passed to a helper, a list captured by a local def - sees the new contents"""
-        old = self.env[name]
-        for env in (self.env, *self.outer):
+    def set_list(self, old: ast.List, value: ast.List) -> None:
+        """in-place change of a list held in a local: every local (of this frame and of the callers) and every attribute of an object
+        created on this path that is bound to the same list object - `out = introductions`, a list passed to a helper, a list
+        captured by a local def, `self.out` of a collector object - sees the new contents"""
+        for env in (self.env, *self.outer, *(r.fields for r in self.records)):
             for k, v in env.items():
                 if v is old:
                     env[k] = value
@@ -619,7 +895,7 @@ class _Run:
             return None
         return cands[0]
 
-    def follow(self, tgt, fn: ast.expr, args: list, kws: list, src: ast.Call | None) -> ast.expr:
+    def follow(self, tgt, fn: ast.expr, args: list, kws: list, src: ast.Call | None, self_value: ast.expr | None = None) -> ast.expr:
         """evaluate the body of a followed helper with its parameters bound to the evaluated arguments"""
         node = tgt.node if isinstance(tgt, FuncInfo) else tgt
         what = tgt.qualname if isinstance(tgt, FuncInfo) else getattr(node, "name", "lambda")
@@ -627,8 +903,8 @@ class _Run:
             raise self.undecided(f"helper calls nested deeper than 12 at {what}")
         if any(isinstance(a, ast.Starred) for a in args) or any(k.arg is None for k in kws):
             raise self.undecided(f"starred arguments in the call of helper {what}")
-        bound_self = None
-        if isinstance(tgt, FuncInfo) and tgt.cls is not None and isinstance(fn, ast.Attribute):
+        bound_self = self_value                       # the receiver, when the caller knows it (methods of objects created on this path)
+        if bound_self is None and isinstance(tgt, FuncInfo) and tgt.cls is not None and isinstance(fn, ast.Attribute):
             decos = set(tgt.decorator_names())
             if "staticmethod" not in decos:
                 explicit = "classmethod" not in decos and self.repo is not None and isinstance(fn.value, ast.Name) \
@@ -709,33 +985,45 @@ class _Run:
             self.awaited.append(ret)
         return ret
 
+    def held_list(self, recv: ast.expr):
+        """the list literal a receiver expression holds on this path: a local, or an attribute of an object created on this path"""
+        if isinstance(recv, ast.Name):
+            v = self.env.get(recv.id)
+            return v if isinstance(v, ast.List) else None
+        if isinstance(recv, ast.Attribute) and isinstance(recv.value, ast.Name):
+            r = _rec(self.env.get(recv.value.id))
+            v = r.fields.get(recv.attr) if r is not None else None
+            return v if isinstance(v, ast.List) else None
+        return None
+
     def call(self, e: ast.Call) -> ast.expr:
         f = e.func
         if isinstance(f, ast.Name) and f.id == "cast" and len(e.args) == 2:
             return self.ev(e.args[1])
-        # mutation of a list literal held in a local
-        if isinstance(f, ast.Attribute) and isinstance(f.value, ast.Name) and isinstance(self.env.get(f.value.id), ast.List) \
-                and f.attr in ("append", "extend", "insert", "clear", "pop", "remove", "sort", "reverse") and not e.keywords:
-            cur = self.env[f.value.id]
+        # mutation of a list literal held in a local / in an attribute of an object created on this path
+        cur = self.held_list(f.value) if isinstance(f, ast.Attribute) and not e.keywords and \
+            f.attr in ("append", "extend", "insert", "clear", "pop", "remove", "sort", "reverse") else None
+        if cur is not None:
             args = [self.ev(a) for a in e.args]
             if f.attr == "append" and len(args) == 1 and not isinstance(args[0], ast.Starred):
-                self.set_list(f.value.id, ast.List(elts=[*cur.elts, args[0]], ctx=ast.Load()))
+                self.set_list(cur, ast.List(elts=[*cur.elts, args[0]], ctx=ast.Load()))
                 return ast.Constant(value=None)
-            if f.attr == "extend" and len(args) == 1 and isinstance(args[0], (ast.List, ast.Tuple)):
-                self.set_list(f.value.id, ast.List(elts=[*cur.elts, *args[0].elts], ctx=ast.Load()))
+            if f.attr == "extend" and len(args) == 1 and not isinstance(args[0], ast.Starred):
+                more = _items(args[0])                   # the elements of an unknown iterable: `[*cur, *it]`
+                self.set_list(cur, ast.List(elts=[*cur.elts, *(more if more is not None else [ast.Starred(value=args[0], ctx=ast.Load())])], ctx=ast.Load()))
                 return ast.Constant(value=None)
             plain = not any(isinstance(x, ast.Starred) for x in [*cur.elts, *args])
             idx = const_value(args[0]) if args else None
             if f.attr == "insert" and len(args) == 2 and plain and isinstance(idx, int) and not _noconst(idx):
                 elts = list(cur.elts)
                 elts.insert(idx, args[1])
-                self.set_list(f.value.id, ast.List(elts=elts, ctx=ast.Load()))
+                self.set_list(cur, ast.List(elts=elts, ctx=ast.Load()))
                 return ast.Constant(value=None)
             if f.attr == "clear" and not args:
-                self.set_list(f.value.id, ast.List(elts=[], ctx=ast.Load()))
+                self.set_list(cur, ast.List(elts=[], ctx=ast.Load()))
                 return ast.Constant(value=None)
             if f.attr == "reverse" and not args and plain:
-                self.set_list(f.value.id, ast.List(elts=list(reversed(cur.elts)), ctx=ast.Load()))
+                self.set_list(cur, ast.List(elts=list(reversed(cur.elts)), ctx=ast.Load()))
                 return ast.Constant(value=None)
             if f.attr == "pop" and len(args) <= 1 and plain and (not args or (isinstance(idx, int) and not _noconst(idx))):
                 elts = list(cur.elts)
@@ -743,23 +1031,77 @@ class _Run:
                 if not -len(elts) <= k < len(elts):
                     raise _Rse                           # IndexError
                 v = elts.pop(k)
-                self.set_list(f.value.id, ast.List(elts=elts, ctx=ast.Load()))
+                self.set_list(cur, ast.List(elts=elts, ctx=ast.Load()))
                 return v
             raise self.undecided(f"list mutation `{norm(e)[:60]}`")
         fn = self.picked(self.ev(f))
-        args = [self.ev(a) for a in e.args]
-        kws = [ast.keyword(arg=k.arg, value=self.ev(k.value)) for k in e.keywords]
+        args = []
+        for a in (self.ev(a) for a in e.args):
+            if isinstance(a, ast.Starred) and _items(a.value) is not None:
+                args.extend(_items(a.value))             # `f(*[a, b])` is `f(a, b)`
+            else:
+                args.append(a)
+        kws = []
+        for k in e.keywords:
+            v = self.ev(k.value)
+            if k.arg is None and isinstance(v, ast.Dict) and all(isinstance(x, ast.Constant) and isinstance(x.value, str) for x in v.keys):
+                kws.extend(ast.keyword(arg=x.value, value=y) for x, y in zip(v.keys, v.values))       # `f(**{"a": b})` is `f(a=b)`
+            else:
+                kws.append(ast.keyword(arg=k.arg, value=v))
+        return self.apply(fn, args, kws, e)
+
+    def apply(self, fn: ast.expr, args: list, kws: list, e: ast.Call) -> ast.expr:  # noqa: C901, PLR0911, PLR0912
+        """the value of calling the evaluated callee with evaluated arguments (e: the call in the analysed tree it stands for)"""
+        impl = _fn(fn)
+        if impl is not None:
+            return impl(args, kws, e)                    # functools.partial / operator.itemgetter / ... objects
+        r = _rec(fn)
+        if r is not None:
+            v = self.rec_call(fn, r, "__call__", args, kws, e)
+            if v is not None:
+                return v
+        if isinstance(fn, ast.Attribute):
+            r = _rec(fn.value)
+            if r is not None:
+                v = self.rec_call(fn.value, r, fn.attr, args, kws, e)
+                if v is not None:
+                    return v
+            m = self.enum_member(fn.value)
+            if m is not None:
+                meth = m[0].lookup(fn.attr)
+                if meth is not None and _is_new(meth) and meth.node not in self.active and not {"staticmethod", "classmethod"} & _deco_names(meth):
+                    return self.follow(meth, fn, args, kws, e, self_value=fn.value)
         if isinstance(fn, ast.Attribute) and fn.attr == "get" and _literal_table(fn.value) and isinstance(fn.value, ast.Dict) \
                 and not kws and 1 <= len(args) <= 2 and not any(isinstance(a, ast.Starred) for a in args):
             return self.select(fn.value, args[0], args[1] if len(args) == 2 else ast.Constant(value=None))
         if isinstance(fn, ast.Name) and fn.id == "getattr" and fn.id not in self.env and 2 <= len(args) <= 3 and not kws \
                 and isinstance(self.picked(args[1]), ast.Constant) and isinstance(self.picked(args[1]).value, str):
             args[1] = self.picked(args[1])
-            return self.versioned(ast.Attribute(value=self.base(args[0]), attr=args[1].value, ctx=ast.Load()))
-        lits = [a for a in args if isinstance(a, (ast.List, ast.Tuple)) and not any(isinstance(x, ast.Starred) for x in a.elts)]
-        if isinstance(fn, ast.Name) and fn.id not in self.env and not kws and args and len(lits) == len(args):
+            return self.attribute(args[0], args[1].value)
+        if isinstance(fn, ast.Name) and fn.id == "setattr" and fn.id not in self.env and len(args) == 3 and not kws \
+                and isinstance(self.picked(args[1]), ast.Constant) and isinstance(self.picked(args[1]).value, str) \
+                and self.picked(args[1]).value.isidentifier() and not isinstance(args[0], ast.Starred):
+            holder = ast.Name(id="<setattr>", ctx=ast.Load())           # `setattr(x, "a", v)` is `x.a = v`
+            saved = self.env.get(holder.id)
+            self.env[holder.id] = args[0]
+            try:
+                self.bind(ast.Attribute(value=holder, attr=self.picked(args[1]).value, ctx=ast.Store()), args[2], enclosing_stmt(e) if e is not None else None)
+            finally:
+                if saved is None:
+                    self.env.pop(holder.id, None)
+                else:
+                    self.env[holder.id] = saved
+            return ast.Constant(value=None)
+        if isinstance(fn, ast.Attribute) and fn.attr == "_make" and len(args) == 1 and not kws and _items(args[0]) is not None:
+            c = self.class_of(fn.value)
+            if c is not None and _class_kind(c) == "tuple":
+                v = self.construct(c, fn.value, _items(args[0]), [], e)        # `T._make([a, b])` is `T(a, b)`
+                if v is not None:
+                    return v
+        seqs = [_items(a) for a in args]
+        if isinstance(fn, ast.Name) and fn.id not in self.env and not kws and args and all(x is not None for x in seqs):
             # builtins over literal sequences: the traversal order / the elements are known
-            first = list(args[0].elts)
+            first = seqs[0]
             if len(args) == 1 and fn.id == "len":
                 return ast.Constant(value=len(first))
             if len(args) == 1 and fn.id in ("list", "iter"):
@@ -771,9 +1113,9 @@ class _Run:
             if len(args) == 1 and fn.id == "enumerate":
                 return ast.List(elts=[ast.Tuple(elts=[ast.Constant(value=i), x], ctx=ast.Load()) for i, x in enumerate(first)], ctx=ast.Load())
             if fn.id == "zip":
-                return ast.List(elts=[ast.Tuple(elts=list(t), ctx=ast.Load()) for t in zip(*[a.elts for a in args])], ctx=ast.Load())
-        if isinstance(fn, ast.Name) and fn.id in ("next", "any", "all") and fn.id not in self.env and not kws and lits[:1] == args[:1] and args:
-            first = list(args[0].elts)
+                return ast.List(elts=[ast.Tuple(elts=list(t), ctx=ast.Load()) for t in zip(*seqs)], ctx=ast.Load())
+        if isinstance(fn, ast.Name) and fn.id in ("next", "any", "all") and fn.id not in self.env and not kws and args and seqs[0] is not None:
+            first = seqs[0]
             if fn.id == "next" and len(args) <= 2:
                 if first:
                     return first[0]
@@ -803,12 +1145,433 @@ class _Run:
                     self.stores.append(_Store(t, v, enclosing_stmt(e) or e, dict(self.facts), dict(self.ver)))
                     self.ver[t] = self.ver.get(t, 0) + 1
                 return ast.Constant(value=None)
+        name = self.ext(fn)
+        if name is not None:
+            v = self.std(name, fn, args, kws, e)
+            if v is not None:
+                return v
+        c = self.class_of(fn)
+        if c is not None:
+            v = self.construct(c, fn, args, kws, e)
+            if v is not None:
+                return v
         tgt = self.target(fn)
         if tgt is not None:
             return self.follow(tgt, fn, args, kws, e)
         c = ast.Call(func=fn, args=args, keywords=kws)
         self.calls.append(_Call(chain(fn), c, e, dict(self.facts), dict(self.ver)))
         return c
+
+    # ------------------------------------------------------------------------------------------------ library functions
+    def ext(self, fn: ast.expr) -> str | None:
+        """dotted origin of an evaluated callee that is not defined in the repository: `itertools.chain`, `builtins.filter`, ..."""
+        if isinstance(fn, ast.Name):
+            n = fn.id
+            if not n.isidentifier() or n in self.env or n in self.closures or n in self.local_classes or n in self.fi.params():
+                return None
+            if n in self.imported:
+                return self.imported[n]
+            for fi in (self.frames[-1], self.fi):
+                m = fi.module
+                if n in m.classes or n in m.functions or n in m.constants:
+                    return None
+                if n in m.imports:
+                    mod, attr = m.imports[n]
+                    if self.repo is not None and (mod in self.repo.modules or mod.split(".")[0] == "ipv8"):
+                        return None
+                    return f"{mod}.{attr}" if attr else mod
+            return "builtins." + n if n in _BUILTIN_FUNCS else None
+        if isinstance(fn, ast.Attribute):
+            b = self.ext(fn.value)
+            return f"{b}.{fn.attr}" if b else None
+        return None
+
+    def binop(self, l: ast.expr, op: ast.operator, r: ast.expr) -> ast.expr:
+        if isinstance(op, ast.Add) and type(l) is type(r) and isinstance(l, (ast.List, ast.Tuple)):
+            return type(l)(elts=[*l.elts, *r.elts], ctx=ast.Load())          # concatenation of two literals
+        return ast.BinOp(left=l, op=op, right=r)
+
+    def callable_value(self, fn: ast.expr, args: list, kws: list, impl) -> ast.expr:
+        node = ast.Call(func=fn, args=list(args), keywords=list(kws))
+        node._fn = impl
+        return node
+
+    def std(self, name: str, fn: ast.expr, args: list, kws: list, e: ast.Call):  # noqa: C901, PLR0911, PLR0912, PLR0915
+        """calls of the standard library whose result is defined by their arguments alone; None: not modelled (an opaque call)"""
+        if any(isinstance(a, ast.Starred) for a in args) or any(k.arg is None for k in kws):
+            return None
+        mod, _, leaf = name.rpartition(".")
+
+        def call(f, a):
+            return self.apply(self.picked(f), list(a), [], e)
+
+        def lst(xs):
+            return ast.List(elts=list(xs), ctx=ast.Load())
+
+        def one(a, k, what):
+            if len(a) != 1 or k:
+                raise self.undecided(f"call of {what} with other than one argument")
+            return a[0]
+
+        if name == "functools.partial" and args:
+            pf, pa, pk = self.picked(args[0]), list(args[1:]), list(kws)
+
+            def partial_impl(a, k, src):
+                given = {y.arg for y in k}
+                return self.apply(pf, [*pa, *a], [x for x in pk if x.arg not in given] + list(k), src)
+            node = self.callable_value(fn, args, kws, partial_impl)
+            node._partial = (pf, len(pa), {k.arg for k in pk})
+            return node
+        if name == "operator.methodcaller" and args and isinstance(const_value(args[0]), str):
+            mname, margs, mkws = const_value(args[0]), list(args[1:]), list(kws)
+
+            def methodcaller_impl(a, k, src):
+                return self.apply(self.attribute(one(a, k, "a methodcaller"), mname), list(margs), list(mkws), src)
+            return self.callable_value(fn, args, kws, methodcaller_impl)
+        if mod == "operator" and not kws:
+            if leaf in _OPERATOR_CMP and len(args) == 2:
+                return ast.Compare(left=args[0], ops=[_OPERATOR_CMP[leaf]()], comparators=[args[1]])
+            if leaf in _OPERATOR_BIN and len(args) == 2:
+                return self.binop(args[0], _OPERATOR_BIN[leaf](), args[1])
+            if leaf == "contains" and len(args) == 2:
+                return ast.Compare(left=args[1], ops=[ast.In()], comparators=[args[0]])
+            if leaf == "not_" and len(args) == 1:
+                return ast.UnaryOp(op=ast.Not(), operand=args[0])
+            if leaf == "truth" and len(args) == 1:
+                return ast.Call(func=ast.Name(id="bool", ctx=ast.Load()), args=[args[0]], keywords=[])
+            if leaf == "getitem" and len(args) == 2:
+                return self.subscript(args[0], args[1])
+            if leaf == "itemgetter" and args:
+                keys = list(args)
+
+                def itemgetter_impl(a, k, src):
+                    x = one(a, k, "an itemgetter")
+                    got = [self.subscript(x, key) for key in keys]
+                    return got[0] if len(got) == 1 else ast.Tuple(elts=got, ctx=ast.Load())
+                return self.callable_value(fn, args, kws, itemgetter_impl)
+            if leaf == "attrgetter" and args and all(isinstance(const_value(a), str) for a in args):
+                paths = [const_value(a) for a in args]
+
+                def attrgetter_impl(a, k, src):
+                    x = one(a, k, "an attrgetter")
+                    got = []
+                    for path in paths:
+                        v = x
+                        for part in path.split("."):
+                            v = self.attribute(v, part)
+                        got.append(v)
+                    return got[0] if len(got) == 1 else ast.Tuple(elts=got, ctx=ast.Load())
+                return self.callable_value(fn, args, kws, attrgetter_impl)
+            return None
+        if name == "itertools.chain" and not kws:
+            seqs = [_items(a) for a in args]
+            return None if any(x is None for x in seqs) else lst(y for x in seqs for y in x)
+        if name == "itertools.chain.from_iterable" and len(args) == 1 and not kws:
+            outer = _items(args[0])
+            inner = [_items(x) for x in outer] if outer is not None else [None]
+            return None if any(x is None for x in inner) else lst(y for x in inner for y in x)
+        if name == "itertools.islice" and 2 <= len(args) <= 4 and not kws:
+            xs = _items(args[0])
+            cs = [None if isinstance(a, ast.Constant) and a.value is None else _int(a) for a in args[1:]]
+            if xs is None or any(c is None and not (isinstance(a, ast.Constant) and a.value is None) for c, a in zip(cs, args[1:])):
+                return None
+            return lst(xs[slice(*cs)])
+        if name in ("builtins.filter", "itertools.filterfalse") and len(args) == 2 and not kws:
+            keep = name == "builtins.filter"
+            pred = args[0]
+            xs = _items(args[1])
+            if xs is None:
+                xs = [_each(args[1])]                    # unknown iterable: one representative element (as in a comprehension)
+            none = isinstance(pred, ast.Constant) and pred.value is None
+            return lst(x for x in xs if self.truth(x if none else call(pred, [x])) == keep)
+        if name == "builtins.map" and len(args) >= 2 and not kws:
+            seqs = [_items(a) for a in args[1:]]
+            if all(x is not None for x in seqs):
+                return lst(call(args[0], row) for row in zip(*seqs))
+            return lst([call(args[0], [_each(args[1])])]) if len(args) == 2 else None
+        if name == "itertools.starmap" and len(args) == 2 and not kws:
+            rows = _items(args[1])
+            rows = [_items(x) for x in rows] if rows is not None else [None]
+            return None if any(x is None for x in rows) else lst(call(args[0], row) for row in rows)
+        if name in ("itertools.takewhile", "itertools.dropwhile") and len(args) == 2 and not kws:
+            xs = _items(args[1])
+            if xs is None:
+                return None
+            i = 0
+            while i < len(xs) and self.truth(call(args[0], [xs[i]])):
+                i += 1
+            return lst(xs[:i] if leaf == "takewhile" else xs[i:])
+        if name == "functools.reduce" and len(args) in (2, 3) and not kws:
+            xs = _items(args[1])
+            if xs is None:
+                return None
+            if len(args) == 3:
+                acc = args[2]
+            elif xs:
+                acc, xs = xs[0], xs[1:]
+            else:
+                raise _Rse                               # TypeError: reduce() of empty iterable with no initial value
+            for x in xs:
+                acc = call(args[0], [acc, x])
+            return acc
+        if name == "itertools.accumulate" and 1 <= len(args) <= 2 and all(k.arg in ("func", "initial") for k in kws):
+            xs = _items(args[0])
+            if xs is None:
+                return None
+            kw = {k.arg: k.value for k in kws}
+            f = args[1] if len(args) == 2 else kw.get("func")
+            if isinstance(f, ast.Constant) and f.value is None:
+                f = None
+            init = kw.get("initial")
+            out, acc = [], None
+            if init is not None and not (isinstance(init, ast.Constant) and init.value is None):
+                acc = init
+                out.append(acc)
+            for x in xs:
+                acc = x if acc is None else (call(f, [acc, x]) if f is not None else self.binop(acc, ast.Add(), x))
+                out.append(acc)
+            return lst(out)
+        if name == "itertools.repeat" and len(args) == 2 and not kws and _int(args[1]) is not None and 0 <= _int(args[1]) <= 64:
+            return lst([args[0]] * _int(args[1]))
+        if name == "builtins.dict" and len(args) <= 1:
+            keys, vals = [], []
+            if args:
+                if isinstance(args[0], ast.Dict) and all(k is not None for k in args[0].keys):
+                    keys, vals = list(args[0].keys), list(args[0].values)
+                else:
+                    rows = _items(args[0])
+                    rows = [_items(x) for x in rows] if rows is not None else [None]
+                    if any(x is None or len(x) != 2 for x in rows):
+                        return None
+                    keys, vals = [x[0] for x in rows], [x[1] for x in rows]
+            for k in kws:
+                keys.append(ast.Constant(value=k.arg))
+                vals.append(k.value)
+            if len({_t(k) for k in keys}) != len(keys):
+                return None
+            return ast.Dict(keys=keys, values=vals)
+        if name == "types.SimpleNamespace" and not args:
+            node = ast.Call(func=fn, args=[], keywords=list(kws))
+            node._rec = _Rec(None, "ns", [k.arg for k in kws], {k.arg: k.value for k in kws})
+            self.records.append(node._rec)
+            return node
+        if name == "dataclasses.replace" and len(args) == 1:
+            r = _rec(args[0])
+            if r is not None and r.kind == "data" and all(k.arg in r.names for k in kws) and r.cls.method("__post_init__") is None:
+                return self.record_like(args[0], r, {**r.fields, **{k.arg: k.value for k in kws}})
+        return None
+
+    # ------------------------------------------------------------------------------------------------ objects
+    def class_of(self, fn: ast.expr) -> _Cls | None:
+        """the class definition that an evaluated callee / class expression denotes"""
+        if isinstance(fn, ast.Name) and fn.id in self.local_classes and fn.id not in self.env:
+            return self.local_classes[fn.id]
+        if self.repo is None or not isinstance(fn, (ast.Name, ast.Attribute)):
+            return None
+        if isinstance(fn, ast.Name) and (not fn.id.isidentifier() or fn.id in self.env or fn.id in self.closures):
+            return None
+        if isinstance(fn, ast.Attribute) and not (isinstance(fn.value, ast.Name) and fn.value.id.isidentifier() and fn.value.id not in self.env):
+            return None
+        for fi in (self.frames[-1], self.fi):
+            try:
+                c = self.repo.resolve_class_expr(fi.module, fn)
+            except (AttributeError, KeyError, TypeError):
+                c = None
+            if c is not None:
+                return _Cls(c.node, c)
+            if isinstance(fn, ast.Name):
+                r = self.repo.resolve_name(fi.module, fn.id)
+                if isinstance(r, tuple) and r[0] == "const":
+                    return _functional_namedtuple(fn.id, r[2])
+        return None
+
+    def followable(self, c: _Cls, m) -> bool:
+        """is the method code this evaluation enters: of a class local to the evaluated body, or one the reviewed tree does not have"""
+        node = m.node if isinstance(m, FuncInfo) else m
+        if node in self.active:
+            raise self.undecided(f"recursive method {c.name}.{node.name}")
+        return c.info is None or (isinstance(m, FuncInfo) and _is_new(m))
+
+    def field_default(self, c: _Cls, d: ast.expr, kind: str):
+        if kind == "data" and isinstance(d, ast.Call) and (chain(d.func) or "").split(".")[-1] == "field":
+            kw = {k.arg: k.value for k in d.keywords}
+            if d.args or set(kw) - {"default", "default_factory", "repr", "compare", "hash", "metadata", "kw_only"}:
+                return None
+            if "default" in kw:
+                d = kw["default"]
+            elif "default_factory" in kw:
+                fac = kw["default_factory"]
+                if isinstance(fac, ast.Name) and fac.id in ("list", "tuple"):
+                    return (ast.List if fac.id == "list" else ast.Tuple)(elts=[], ctx=ast.Load())
+                if isinstance(fac, ast.Name) and fac.id == "dict":
+                    return ast.Dict(keys=[], values=[])
+                if isinstance(fac, ast.Lambda) and not fac.args.args:
+                    d = fac.body
+                else:
+                    return None
+            else:
+                return None
+        if c.info is not None and c.info.module is not self.frames[-1].module and _noconst(const_value(d)):
+            return None                                  # names of another module: not resolvable from the current frame
+        return self.in_frame_of(c.env, lambda: self.ev(d))
+
+    def construct(self, c: _Cls, fn: ast.expr, args: list, kws: list, e: ast.Call):
+        """the object `C(args)` creates, for the classes whose construction the language defines (see _class_kind); else None"""
+        kind = _class_kind(c)
+        if kind is None:
+            if c.info is not None and c.info.methods and all(_is_new(m) for m in c.info.methods.values()) \
+                    and set(c.bases()) <= {"object", "Generic", "NamedTuple"}:
+                raise self.undecided(f"objects of the new class {c.name}")         # (a class with other bases stays an opaque constructor call)
+            return None
+        starred = any(isinstance(a, ast.Starred) for a in args) or any(k.arg is None for k in kws)
+        node = ast.Call(func=fn, args=list(args), keywords=list(kws))
+        if kind == "plain":
+            if starred:
+                raise self.undecided(f"starred arguments in the construction of {c.name}")
+            init = c.method("__init__")
+            if init is None and (args or kws):
+                raise self.undecided(f"arguments for {c.name}, which has no __init__")
+            if init is not None and not self.followable(c, init):
+                return None
+            node._rec = _Rec(c, kind, [], {})
+            self.records.append(node._rec)
+            if init is not None:
+                self.follow(init, ast.Attribute(value=node, attr="__init__", ctx=ast.Load()), args, kws, e, self_value=node)
+            return node
+        if starred:
+            return None
+        names, defaults = [], {}
+        for st in c.annotated():
+            ann = norm(st.annotation)
+            if "ClassVar" in ann:
+                continue
+            if "InitVar" in ann or "KW_ONLY" in ann:
+                return None
+            names.append(st.target.id)
+            if st.value is not None:
+                defaults[st.target.id] = st.value
+        if len(args) > len(names):
+            return None
+        fields = dict(zip(names, args))
+        for k in kws:
+            if k.arg not in names or k.arg in fields:
+                return None
+            fields[k.arg] = k.value
+        post = c.method("__post_init__") if kind == "data" else None
+        if post is not None and not self.followable(c, post):
+            return None
+        for n in names:
+            if n not in fields:
+                d = self.field_default(c, defaults[n], kind) if n in defaults else None
+                if d is None:
+                    return None
+                fields[n] = d
+        node._rec = _Rec(c, kind, names, {n: fields[n] for n in names})
+        self.records.append(node._rec)
+        self.calls.append(_Call(chain(fn), node, e, dict(self.facts), dict(self.ver)))
+        if post is not None:
+            self.follow(post, ast.Attribute(value=node, attr="__post_init__", ctx=ast.Load()), [], [], e, self_value=node)
+        return node
+
+    def record_like(self, recv: ast.expr, r: _Rec, fields: dict) -> ast.expr:
+        """a copy of an object with other field values (`_replace`, dataclasses.replace)"""
+        node = ast.Call(func=recv.func, args=[], keywords=[ast.keyword(arg=n, value=fields[n]) for n in r.names])
+        node._rec = _Rec(r.cls, r.kind, list(r.names), {n: fields[n] for n in r.names})
+        self.records.append(node._rec)
+        return node
+
+    def rec_attr(self, b: ast.expr, r: _Rec, attr: str) -> ast.expr:
+        """`b.attr` of an object created on this path"""
+        if attr in r.fields:
+            return r.fields[attr]
+        c = r.cls
+        if c is not None:
+            m = c.method(attr)
+            if m is not None:
+                if _PROPERTY & _deco_names(m):
+                    if not self.followable(c, m):
+                        return self.versioned(ast.Attribute(value=b, attr=attr, ctx=ast.Load()))
+                    return self.follow(m, ast.Attribute(value=b, attr=attr, ctx=ast.Load()), [], [], None, self_value=b)
+                return ast.Attribute(value=b, attr=attr, ctx=ast.Load())         # a bound method: entered when it is called
+            v = c.attr(attr)
+            if v is not None and (c.info is None or c.info.module is self.frames[-1].module or not _noconst(const_value(v))):
+                return self.in_frame_of(c.env, lambda: self.ev(v))
+        if r.kind == "tuple" and attr == "_fields":
+            return ast.Tuple(elts=[ast.Constant(value=n) for n in r.names], ctx=ast.Load())
+        if attr == "__class__" and isinstance(b, ast.Call):
+            return b.func
+        if attr == "__dict__" and r.kind in ("plain", "data", "ns"):
+            return ast.Dict(keys=[ast.Constant(value=n) for n in r.fields], values=list(r.fields.values()))
+        if r.kind == "tuple" and attr in ("_replace", "_asdict"):
+            return ast.Attribute(value=b, attr=attr, ctx=ast.Load())
+        return self.versioned(ast.Attribute(value=b, attr=attr, ctx=ast.Load()))
+
+    def rec_item(self, b: ast.expr, r: _Rec, k: ast.expr):
+        """`b[k]` of an object created on this path; None: not known"""
+        if r.kind == "tuple":
+            vals = [r.fields[n] for n in r.names]
+            i = _int(k)
+            if i is not None:
+                if -len(vals) <= i < len(vals):
+                    return vals[i]
+                raise _Rse                               # IndexError
+            if isinstance(k, ast.Slice):
+                cs = [None if x is None else _int(x) for x in (k.lower, k.upper, k.step)]
+                if all(c is not None or x is None for c, x in zip(cs, (k.lower, k.upper, k.step))):
+                    return ast.Tuple(elts=vals[slice(*cs)], ctx=ast.Load())
+            return None
+        if r.cls is not None and r.cls.method("__getitem__") is not None and not isinstance(k, ast.Slice):
+            return self.rec_call(b, r, "__getitem__", [k], [], None)
+        return None
+
+    def rec_call(self, recv: ast.expr, r: _Rec, name: str, args: list, kws: list, e):
+        """call of the attribute `name` of an object created on this path; None when that is not code this evaluation enters"""
+        if r.kind == "tuple" and name == "_replace" and not args and all(k.arg in r.names for k in kws):
+            return self.record_like(recv, r, {**r.fields, **{k.arg: k.value for k in kws}})
+        if r.kind == "tuple" and name == "_asdict" and not args and not kws:
+            return ast.Dict(keys=[ast.Constant(value=n) for n in r.names], values=[r.fields[n] for n in r.names])
+        c = r.cls
+        m = c.method(name) if c is not None else None
+        if m is None:
+            if name in r.fields and name != "__call__":
+                return self.apply(self.picked(r.fields[name]), args, kws, e)          # a callable held in an attribute
+            return None
+        if not self.followable(c, m):
+            return None
+        decos = _deco_names(m)
+        if "staticmethod" in decos:
+            return self.follow(m, ast.Name(id=name, ctx=ast.Load()), args, kws, e)
+        me = recv.func if "classmethod" in decos and isinstance(recv, ast.Call) else recv
+        return self.follow(m, ast.Attribute(value=recv, attr=name, ctx=ast.Load()), args, kws, e, self_value=me)
+
+    def enum_member(self, x: ast.expr):
+        """(class, member name) when the evaluated expression names a member of an Enum class"""
+        if self.repo is None or not (isinstance(x, ast.Attribute) and isinstance(x.value, ast.Name) and x.value.id.isidentifier()
+                                     and x.value.id not in ("self", "cls") and x.value.id not in self.env):
+            return None
+        for fi in (self.frames[-1], self.fi):
+            try:
+                c = self.repo.resolve_class_expr(fi.module, x.value)
+            except (AttributeError, KeyError, TypeError):
+                c = None
+            if c is not None and any(b.endswith(("Enum", "Flag")) for b in c.all_base_names()) and c.lookup_attr(x.attr) is not None:
+                return c, x.attr
+        return None
+
+    def enum_attr(self, b: ast.expr, m: tuple, attr: str):
+        """`Member.attr`: name, constant value, or a property / method that the reviewed tree does not have; None: not known"""
+        c, member = m
+        if attr == "name":
+            return ast.Constant(value=member)
+        if attr == "value":
+            v = c.lookup_attr(member)
+            return v if v is not None and not _noconst(const_value(v)) else None
+        meth = c.lookup(attr)
+        if meth is None or not _is_new(meth) or meth.node in self.active:
+            return None
+        if _PROPERTY & _deco_names(meth):
+            return self.follow(meth, ast.Attribute(value=b, attr=attr, ctx=ast.Load()), [], [], None, self_value=b)
+        return ast.Attribute(value=b, attr=attr, ctx=ast.Load())
 
     def comprehension(self, e) -> ast.expr:
         saved = dict(self.env)
@@ -821,8 +1584,8 @@ class _Run:
                 raise self.undecided("async comprehension")
             it = self.ev(g.iter)
             out = []
-            if isinstance(it, (ast.List, ast.Tuple)) and not any(isinstance(x, ast.Starred) for x in it.elts):
-                for x in it.elts:
+            if _items(it) is not None:
+                for x in _items(it):
                     self.bind(g.target, x, None)
                     if all(self.truth(self.ev(c)) for c in g.ifs):
                         out.extend(gen(i + 1))
@@ -847,16 +1610,29 @@ class _Run:
         if isinstance(target, (ast.Tuple, ast.List)):
             if any(isinstance(t, ast.Starred) for t in target.elts):
                 raise self.undecided("starred assignment target")
-            if isinstance(value, (ast.Tuple, ast.List)) and len(value.elts) == len(target.elts) \
-                    and not any(isinstance(x, ast.Starred) for x in value.elts):
-                for t, x in zip(target.elts, value.elts):
+            items = _items(value) if value is not None else None
+            if items is not None and len(items) == len(target.elts):
+                for t, x in zip(target.elts, items):
                     self.bind(t, x, stmt)
             else:
                 for i, t in enumerate(target.elts):
                     self.bind(t, ast.Subscript(value=value, slice=ast.Constant(value=i), ctx=ast.Load()), stmt)
             return
         if isinstance(target, ast.Attribute):
-            n = ast.Attribute(value=self.base(self.ev(target.value)), attr=target.attr, ctx=ast.Load())
+            owner = self.base(self.ev(target.value))
+            r = _rec(owner)
+            if r is not None:
+                # attribute of an object created on this path: part of that object, not a store the rules look at
+                if r.kind == "tuple" or (r.cls is not None and r.cls.method(target.attr) is not None):
+                    raise self.undecided(f"assignment to `{norm(target)[:60]}`")
+                if value is None:
+                    r.fields.pop(target.attr, None)
+                else:
+                    r.fields[target.attr] = value
+                    if target.attr not in r.names:
+                        r.names.append(target.attr)
+                return
+            n = ast.Attribute(value=owner, attr=target.attr, ctx=ast.Load())
         elif isinstance(target, ast.Subscript):
             n = ast.Subscript(value=self.base(self.ev(target.value)), slice=self.ev(target.slice), ctx=ast.Load())
         else:
@@ -885,6 +1661,19 @@ class _Run:
         if isinstance(pat, ast.MatchSequence) and isinstance(subj, (ast.Tuple, ast.List)) \
                 and not any(isinstance(q, ast.MatchStar) for q in pat.patterns) and not any(isinstance(x, ast.Starred) for x in subj.elts):
             return len(pat.patterns) == len(subj.elts) and all(self.pattern(q, x) for q, x in zip(pat.patterns, subj.elts))
+        if isinstance(pat, ast.MatchClass):
+            r = _rec(subj)
+            pc = self.class_of(self.ev(pat.cls))
+            if r is not None and r.cls is not None and pc is not None and _class_kind(pc) is not None:
+                if not r.cls.same(pc):
+                    return False
+                if r.kind in ("tuple", "data"):
+                    names = r.names
+                else:
+                    names = const_value(pc.attr("__match_args__")) if pc.attr("__match_args__") is not None else ()
+                if isinstance(names, (list, tuple)) and len(pat.patterns) <= len(names):
+                    return all(self.pattern(q, self.rec_attr(subj, r, n)) for q, n in zip(pat.patterns, names)) and \
+                        all(self.pattern(q, self.rec_attr(subj, r, n)) for n, q in zip(pat.kwd_attrs, pat.kwd_patterns))
         raise self.undecided(f"match pattern `{norm(pat)[:60]}`")
 
     def block(self, stmts) -> None:
@@ -907,8 +1696,8 @@ class _Run:
             elif not isinstance(s.value, ast.Constant):
                 self.ev(s.value)
         elif isinstance(s, (ast.FunctionDef, ast.AsyncFunctionDef)):
-            if s.decorator_list:
-                raise self.undecided(f"decorated local function {s.name}")
+            if any(not (isinstance(d, ast.Call) and self.ext(d.func) == "functools.wraps") for d in s.decorator_list):
+                raise self.undecided(f"decorated local function {s.name}")     # (functools.wraps only copies the name and docstring)
             self.closures[s.name] = s
             self.defenv[id(s)] = self.env
             self.env.pop(s.name, None)
@@ -924,7 +1713,7 @@ class _Run:
             if isinstance(s.target, ast.Name):
                 cur = self.ev(s.target)
                 if isinstance(cur, ast.List) and isinstance(s.op, ast.Add) and isinstance(v, (ast.List, ast.Tuple)):
-                    self.set_list(s.target.id, ast.List(elts=[*cur.elts, *v.elts], ctx=ast.Load()))      # in place: aliases see it
+                    self.set_list(cur, ast.List(elts=[*cur.elts, *v.elts], ctx=ast.Load()))      # in place: aliases see it
                 else:
                     self.env[s.target.id] = ast.BinOp(left=cur, op=s.op, right=v)
             else:
@@ -932,11 +1721,11 @@ class _Run:
                 self.bind(s.target, ast.BinOp(left=cur, op=s.op, right=v), s)
         elif isinstance(s, ast.If):
             self.block(s.body if self.truth(self.ev(s.test)) else s.orelse)
-        elif isinstance(s, ast.For):
+        elif isinstance(s, (ast.For, ast.AsyncFor)):
             it = self.ev(s.iter)
-            if isinstance(it, (ast.List, ast.Tuple)) and not any(isinstance(x, ast.Starred) for x in it.elts):
+            if _items(it) is not None:
                 broke = False
-                for x in it.elts:
+                for x in _items(it):
                     self.bind(s.target, x, s)
                     try:
                         self.block(s.body)
@@ -978,12 +1767,29 @@ class _Run:
                     break
             if not broke:
                 self.block(s.orelse)
-        elif isinstance(s, ast.With):
+        elif isinstance(s, (ast.With, ast.AsyncWith)):
+            suppressed: set[str] = set()
             for item in s.items:
                 v = self.ev(item.context_expr)
                 if item.optional_vars is not None:
                     self.bind(item.optional_vars, v, s)
-            self.block(s.body)
+                if isinstance(v, ast.Call) and self.ext(v.func) == "contextlib.suppress":
+                    suppressed.update((chain(a) or "?").split(".")[-1] for a in v.args)
+            if not suppressed:
+                self.block(s.body)
+            else:
+                # `with suppress(KeyError): ...` is `try: ... except KeyError: pass`
+                keyed = bool(suppressed & _CATCHES_KEYERROR)
+                self.catching += keyed
+                try:
+                    self.block(s.body)
+                except _Exc as x:
+                    if not suppressed & (_CATCHES_KEYERROR if x.kind == "KeyError" else {x.kind, "Exception", "BaseException"}):
+                        raise
+                except _Rse:
+                    raise self.undecided("an explicit raise inside `with suppress(...)`") from None
+                finally:
+                    self.catching -= keyed
         elif isinstance(s, ast.Return):
             raise _Ret(self.ev(s.value) if s.value is not None else None)
         elif isinstance(s, ast.Raise):
@@ -997,7 +1803,20 @@ class _Run:
             raise _Brk
         elif isinstance(s, ast.Continue):
             raise _Cnt
-        elif isinstance(s, (ast.Pass, ast.Global, ast.Nonlocal, ast.Import, ast.ImportFrom)):
+        elif isinstance(s, ast.ImportFrom):
+            for a in s.names:
+                if not s.level and s.module:
+                    self.imported[a.asname or a.name] = f"{s.module}.{a.name}"
+        elif isinstance(s, ast.Import):
+            for a in s.names:
+                self.imported[a.asname or a.name.split(".")[0]] = a.name if a.asname else a.name.split(".")[0]
+        elif isinstance(s, ast.ClassDef):
+            c = _Cls(s, None, self.env)
+            self.local_classes[s.name] = c
+            for m in c.methods().values():
+                self.defenv[id(m)] = self.env
+            self.env.pop(s.name, None)
+        elif isinstance(s, (ast.Pass, ast.Global, ast.Nonlocal)):
             pass
         elif isinstance(s, ast.Delete):
             for t in s.targets:
@@ -1048,11 +1867,11 @@ def _bind(ctx: Ctx):
     return ctx.repo
 
 
-def _paths(fi: FuncInfo, preset: dict | None = None, limit: int = 4000, repo=None) -> list[_Path]:
+def _paths(fi: FuncInfo, preset: dict | None = None, limit: int = 4000, repo=None, driver=None) -> list[_Path]:
     out = []
     stack: list[list[bool]] = [[]]
     while stack:
-        run = _Run(fi, preset or {}, stack.pop(), repo)
+        run = _Run(fi, preset or {}, stack.pop(), repo, driver)
         out.append(run.go())
         stack.extend(run.alternatives)
         if len(out) + len(stack) > limit:
@@ -1101,11 +1920,25 @@ def _args(c: ast.Call, names: list[str]) -> list[str] | None:
 
 # ---------------------------------------------------------------------------------------------------------------------
 
+def _eff_prefix(text: str | None, param: str, truthy) -> str:
+    """the community prefix `_ez_pack(<text> ...)` / `create_puncture_request(prefix=<text>)` ends up using, as a canonical text:
+    a missing / None / falsy prefix means the overlay's own one"""
+    if text in (None, "<missing>", "None", "self._prefix"):
+        return "self._prefix"
+    if text in (param, f"{param} or self._prefix"):
+        return param if truthy is True else "self._prefix" if truthy is False else f"{param} or self._prefix"
+    return text
+
+
 def rule_puncture_accompanies(ctx: Ctx) -> None:  # noqa: C901, PLR0912, PLR0915
     repo = _bind(ctx)
     fi = repo.method("Community", "create_introduction_response", CM)
     p = fi.params()
     lan_sock, sock, ident, intro_param = p[1], p[2], p[3], p[4]
+    prefix_param = "prefix" if "prefix" in p else None
+    if prefix_param is None:
+        raise AnalysisError("anchor-lost: the prefix parameter of create_introduction_response")
+    cpr = repo.method("Community", "create_puncture_request", CM)
     paths = [x for x in _paths(fi) if x.end == "return"]
     gf = repo.method("Community", "get_peer_for_introduction", CM)
     payload_names = ("IntroductionResponsePayload", "NewIntroductionResponsePayload")
@@ -1157,6 +1990,23 @@ def rule_puncture_accompanies(ctx: Ctx) -> None:  # noqa: C901, PLR0912, PLR0915
             seen.add(key)
             ctx.check(ok, "puncture-accompanies", fi, c.src, "puncture request (requester LAN, requester WAN, request identifier) goes to the introduced peer",
                       "the puncture request is sent to the wrong peer or carries other addresses/identifier than the requester's")
+        # ... and is packed for the community the response is packed for (the `prefix` the caller answers on behalf of)
+        packs = [n for n in ast.walk(path.ret) if isinstance(n, ast.Call) and chain(n.func) == "self._ez_pack" and n.args]
+        if len({_t(n.args[0]) for n in packs}) != 1:
+            raise AnalysisError("undecided: the community prefix the introduction response is packed with (no single self._ez_pack(prefix, ...) "
+                                "in the value create_introduction_response returns)")
+        truthy = _fact(path.facts, fi, prefix_param)
+        cpr_args = _args(pk, cpr.params()[1:5]) or [None] * 4
+        resp_prefix, punct_prefix = _eff_prefix(_t(packs[0].args[0]), prefix_param, truthy), _eff_prefix(cpr_args[3], prefix_param, truthy)
+        key = f"prefix:{resp_prefix}:{punct_prefix}"
+        if key not in seen:
+            seen.add(key)
+            ctx.check(resp_prefix == punct_prefix, "puncture-accompanies", fi, c.src,
+                      "the puncture request is packed with the community prefix of the response it accompanies",
+                      f"create_introduction_response packs the response with `{resp_prefix}` but the accompanying puncture request with `{punct_prefix}`: "
+                      "an introducer answering on behalf of another community id (prefix=...) asks the introduced peer to puncture in a community that "
+                      "peer's endpoint has no listener for - the request is dropped, no puncture is sent and the requester's contact attempt is filtered by "
+                      "the introduced peer's NAT")
         if not ok:
             continue
         # the addresses handed out are those of the peer that is asked to puncture
@@ -1168,8 +2018,11 @@ def rule_puncture_accompanies(ctx: Ctx) -> None:  # noqa: C901, PLR0912, PLR0915
             want = (f"{who}.addresses.get(UDPv4LANAddress, {NULL_T})", f"{who}.address")
         # `D.get(k, null)` spelled as a membership test / try-except KeyError: `D[k]` where k is known to be present, null where not
         has_lan = _fact(path.facts, fi, f"UDPv4LANAddress in {who}.addresses")
+        lan_slot = f"{who}.addresses[UDPv4LANAddress]"
+        if _fact(path.facts, fi, lan_slot) is False:
+            continue                                     # `D.get(k) or null`: an address is an (ip, port) pair, never falsy - not a path
         same = (lan, wan) == want or (not is_lan and wan == want[1] and (
-            (has_lan is True and lan == f"{who}.addresses[UDPv4LANAddress]") or (has_lan is False and lan == NULL_T)))
+            (has_lan is True and lan in (lan_slot, f"{who}.addresses.get(UDPv4LANAddress)")) or (has_lan is False and lan == NULL_T)))
         origin_ok = who == intro_param or who.startswith("self.get_peer_for_introduction(")
         key = f"derive:{is_lan}:{lan}:{wan}:{who}"
         if key not in seen:
@@ -1179,6 +2032,23 @@ def rule_puncture_accompanies(ctx: Ctx) -> None:  # noqa: C901, PLR0912, PLR0915
                       f"introduction address derivation changed: the response carries ({lan}, {wan}) while the puncture request goes to {tgt}; "
                       f"expected {want}")
     ctx.floor("puncture-accompanies.sites", len(sites), 2)
+    if "prefix" not in cpr.params():
+        raise AnalysisError("anchor-lost: the prefix parameter of create_puncture_request")
+    bad_pack = None
+    n_packs = 0
+    for truthy in (True, False):
+        for path in _paths(cpr, _preset(cpr, {"prefix": truthy})):
+            if path.end != "return" or path.ret is None:
+                continue
+            packs = [n for n in ast.walk(path.ret) if isinstance(n, ast.Call) and chain(n.func) == "self._ez_pack" and n.args]
+            if len(packs) != 1:
+                raise AnalysisError("undecided: the value create_puncture_request returns is not one self._ez_pack(prefix, ...) packet")
+            n_packs += 1
+            if _eff_prefix(_t(packs[0].args[0]), "prefix", truthy) != ("prefix" if truthy else "self._prefix") and bad_pack is None:
+                bad_pack = next((c.src for c in path.calls if c.call is packs[0]), cpr.node)
+    ctx.check(bad_pack is None and n_packs > 0, "puncture-accompanies", cpr, bad_pack or cpr.node,
+              "create_puncture_request packs the request with the prefix it is given (its own one when none is given)",
+              "create_puncture_request ignores its prefix argument: a puncture request sent on behalf of another community id is packed for the wrong community")
     ctx.check(bool(excl_nodes) and all(excl_nodes.values()), "puncture-accompanies", fi, fi.node, "the requester is excluded from the introduction choice",
               "the requester can be introduced to itself")
 
@@ -1190,7 +2060,7 @@ def rule_puncture_accompanies(ctx: Ctx) -> None:  # noqa: C901, PLR0912, PLR0915
             continue
         r = path.ret
         good = False
-        if isinstance(r, ast.Call) and (chain(r.func) or "").split(".")[-1] == "choice" and len(r.args) == 1 and isinstance(r.args[0], ast.List):
+        if isinstance(r, ast.Call) and (chain(r.func) or "").split(".")[-1] == "choice" and len(r.args) == 1 and isinstance(r.args[0], (ast.List, ast.Tuple)):
             each = "each(self.get_peers())"
             elts = {_t(x) for x in r.args[0].elts}
             # an empty literal only arises on a path whose representative element was filtered out: nothing is chosen from it
@@ -1222,7 +2092,8 @@ def rule_puncture_accompanies(ctx: Ctx) -> None:  # noqa: C901, PLR0912, PLR0915
         lan_node = next((s.src for s in path.stores if s.target == f"{peer}.address" and lan_node is oir.node), lan_node)
         is4 = _fact(c.facts, oir, f"isinstance({payload}.source_lan_address, UDPv4Address)")
         src_lan = f"{payload}.source_lan_address"
-        want_store = (f"UDPv4LANAddress(*{src_lan})", f"UDPv4LANAddress({src_lan}[0], {src_lan}[1])")      # an (ip, port) pair either way
+        want_store = (f"UDPv4LANAddress(*{src_lan})", f"UDPv4LANAddress({src_lan}[0], {src_lan}[1])",      # an (ip, port) pair either way
+                      f"UDPv4LANAddress._make({src_lan})", f"UDPv4LANAddress(ip={src_lan}[0], port={src_lan}[1])")
         if is4 is True:
             good = len(st) == 1 and _t(st[0].value) in want_store
         elif is4 is False:
@@ -1356,6 +2227,52 @@ def rule_puncture_target(ctx: Ctx) -> None:
         ctx.check(ok, "puncture-target", f2, f2.node, f"{name} forwards to on_puncture_request unchanged", f"{name} does not forward the request unchanged")
 
 
+def _is_record_expr(cls: ClassInfo, m: FuncInfo, v, depth: int = 0) -> bool:
+    """v (in method m of cls) evaluates to a WalkableAddress: a constructor call, a copy with replaced fields, a local / conditional of
+    those, or a parameter of a method the reviewed tree does not have that every caller in the class binds to one"""
+    from ..match import resolve
+    if v is None or depth > 3:
+        return False
+    v = resolve(m, v)
+    if isinstance(v, ast.Call) and chain(v.func) == "WalkableAddress":
+        return True
+    if isinstance(v, ast.Call) and isinstance(v.func, ast.Attribute) and v.func.attr == "_replace":
+        return True                                      # only NamedTuple objects have _replace; it returns the same type
+    if isinstance(v, ast.IfExp):
+        return _is_record_expr(cls, m, v.body, depth + 1) and _is_record_expr(cls, m, v.orelse, depth + 1)
+    if isinstance(v, ast.Name) and v.id in m.params() and _is_new(m):
+        idx = m.params().index(v.id) - 1                 # position among the arguments of self.m(...)
+        sites = [(o, n) for o in cls.methods.values() for n in walk_no_nested(o.node)
+                 if isinstance(n, ast.Call) and chain(n.func) == f"self.{m.name}"]
+        if idx < 0:
+            return False
+        if not sites:
+            # no caller left in the class (the engine inlined the calls): dead unless somebody else calls it
+            return _REPO is not None and not any(True for _ in _REPO.callers_of_name(m.name))
+        for o, n in sites:
+            a = n.args[idx] if idx < len(n.args) and not any(isinstance(x, ast.Starred) for x in n.args[: idx + 1]) else \
+                next((k.value for k in n.keywords if k.arg == v.id), None)
+            if not _is_record_expr(cls, o, a, depth + 1):
+                return False
+        return True
+    return False
+
+
+def _reaching_value(st: ast.stmt, name: str):
+    """the value of the last `name = value` before st in st's own block when nothing in between rebinds the name, else None"""
+    from ..model import parent
+    par = parent(st)
+    for fld in ("body", "orelse", "finalbody"):
+        block = getattr(par, fld, None)
+        if isinstance(block, list) and st in block:
+            for prev in reversed(block[: block.index(st)]):
+                if isinstance(prev, ast.Assign) and len(prev.targets) == 1 and isinstance(prev.targets[0], ast.Name) and prev.targets[0].id == name:
+                    return prev.value
+                if any(isinstance(n, ast.Name) and n.id == name and isinstance(n.ctx, (ast.Store, ast.Del)) for n in ast.walk(prev)):
+                    return None
+    return None
+
+
 def _records_are_truthy(ctx: Ctx, da: FuncInfo) -> bool:
     """Every value stored in Network._all_addresses is a WalkableAddress(...) and that is a NamedTuple with fields (never falsy)."""
     wa = ctx.repo.try_cls("WalkableAddress", da.module.relpath)
@@ -1366,7 +2283,9 @@ def _records_are_truthy(ctx: Ctx, da: FuncInfo) -> bool:
             if isinstance(st, ast.Delete):
                 continue
             v = getattr(st, "value", None)
-            if not (isinstance(st, ast.Assign) and isinstance(v, ast.Call) and chain(v.func) == "WalkableAddress"):
+            if isinstance(v, ast.Name):
+                v = _reaching_value(st, v.id) or v       # a local that is rebound: the definition that reaches the store
+            if not (isinstance(st, ast.Assign) and _is_record_expr(da.cls, m, v)):
                 return False
     return True
 
@@ -1416,6 +2335,45 @@ def rule_introduction_recorded(ctx: Ctx) -> None:
     ctx.check(bad_value is None, "introduction-recorded", da, bad_value or da.node, "record = (introducer key, service, new_style)", "the recorded introduction loses the introducer/service/new_style")
 
 
+def rule_walkable_offered(ctx: Ctx) -> None:
+    """An introduced address is recorded for the overlay it was introduced in (introduction-recorded); the overlay's walker makes its
+    contact attempt only to what Network.get_walkable_addresses(service) offers.  The Network is shared by all overlays of a node, so for
+    a given service only the addresses of the peers verified FOR THAT SERVICE may be held back."""
+    nw = "ipv8/peerdiscovery/network.py"
+    gw = _bind(ctx).method("Network", "get_walkable_addresses", nw)
+    service = gw.params()[1]
+    want = f"self.get_peers_for_service({service})"
+    sources: dict[str, ast.AST] = {}
+    n_paths = 0
+    for path in _paths(gw, _preset(gw, {service: True})):
+        if path.end != "return":
+            continue
+        n_paths += 1
+        roots = [(c.call, c.src, c.facts) for c in path.calls] + [(st.value, st.src, st.facts) for st in path.stores if st.value is not None]
+        if path.ret is not None:
+            roots.append((path.ret, gw.node, path.facts))
+        for root, src, facts in roots:
+            for n in ast.walk(root):
+                # `<element of X>.addresses`: X is a collection of peers whose addresses this query reads (to hold them back)
+                if isinstance(n, ast.Attribute) and n.attr == "addresses" and isinstance(n.value, ast.Name) and n.value.id.startswith("each("):
+                    x = _unver(n.value.id[5:-1])
+                    sources.setdefault(x, src or gw.node)
+                    if x == "self.verified_peers" and any(re.search(rf"\b{re.escape(service)}\b", k) and _unver(k) != "t:" + service for k in facts):
+                        # all verified peers, but under a condition on the service: a per-service filter spelled out in place
+                        raise AnalysisError(f"undecided: get_walkable_addresses reads the addresses of self.verified_peers under a condition on {service}")
+    if not n_paths or not sources:
+        raise AnalysisError("anchor-lost: the peers whose addresses Network.get_walkable_addresses(service) holds back")
+    other = [x for x in sources if x not in (want, "self.verified_peers")]
+    if other:
+        raise AnalysisError(f"undecided: get_walkable_addresses reads the addresses of the peers in `{other[0][:80]}`")
+    ctx.check("self.verified_peers" not in sources, "walkable-offered", gw, sources.get("self.verified_peers", gw.node),
+              "for a service, only the addresses of the peers verified for that service are held back from the walker",
+              f"Network.get_walkable_addresses({service}) holds back the addresses of ALL verified peers (self.verified_peers) instead of "
+              f"{want}: the Network is shared by every overlay of the node, so the working address of an introduced peer that is already "
+              "verified through another overlay is never offered to this overlay's walker - the requester makes no contact attempt and the two "
+              "never become verified peers of each other in this overlay")
+
+
 def _wrapped_callee(repo, g: FuncInfo) -> str | None:
     """name under which a wrapper function calls the function it wraps: a parameter of an enclosing function that it calls"""
     from ..model import ancestors
@@ -1428,6 +2386,26 @@ def _wrapped_callee(repo, g: FuncInfo) -> str | None:
         if isinstance(n, ast.Call) and isinstance(n.func, ast.Name) and n.func.id in outer_params and n.func.id not in own:
             return n.func.id
     return None
+
+
+_WRAPPED = "<wrapped>"
+
+
+def _wrapper_driver(fac: FuncInfo):
+    """evaluate `fac(...)`, hand the result a symbolic handler, and call what comes back as the endpoint would:
+    factory(*payloads) -> decorator(handler) -> wrapper(overlay, source address, data), whatever kind of callable each level is"""
+    def drive(run: _Run):
+        v = run.body_value(fac.node)
+        for _ in range(4):
+            names = run.signature(v)
+            if not names:
+                break
+            if len(names) >= 2:
+                run.meta["src"] = names[1]
+                return run.apply(v, [ast.Name(id=n, ctx=ast.Load()) for n in names], [], None)
+            v = run.apply(v, [ast.Name(id=_WRAPPED, ctx=ast.Load())], [], None)
+        raise AnalysisError(f"anchor-lost: the callable that {fac.qualname} puts in place of the decorated handler")
+    return drive
 
 
 def rule_address_refreshed(ctx: Ctx) -> None:
@@ -1464,16 +2442,20 @@ def rule_address_refreshed(ctx: Ctx) -> None:
                         homes.append(r)
                         todo.append(r)
         wrappers = [g for h in homes for g in h.module.all_functions if h.node in list(ancestors(g.node)) and _wrapped_callee(repo, g)]
-        if not wrappers:
-            raise AnalysisError(f"anchor-lost: the function inside {fac.qualname} that calls the wrapped handler")
-        for g in wrappers:
-            callee = _wrapped_callee(repo, g)
-            gp = g.params()
-            if len(gp) < 2:
-                raise AnalysisError(f"undecided: {g.qualname} does not take (overlay, source address, data)")
-            src_addr = gp[1]
+        if wrappers:
+            todo = []
+            for g in wrappers:
+                if len(g.params()) < 2:
+                    raise AnalysisError(f"undecided: {g.qualname} does not take (overlay, source address, data)")
+                todo.append((g, _paths(g), _wrapped_callee(repo, g), g.params()[1]))
+        else:
+            # no nested function calls the decorated handler directly (it is held by a callable object, a partial, ...): evaluate
+            # factory(...)(handler)(overlay, source address, data) with a symbolic handler and look at what that does
+            todo = [(fac, _paths(fac, driver=_wrapper_driver(fac)), _WRAPPED, None)]
+        for g, paths, callee, src_param in todo:
             bad = None
-            for path in _paths(g):
+            for path in paths:
+                src_addr = src_param or path.meta.get("src")
                 for i, c in enumerate(path.calls):
                     if c.chain != callee:
                         continue
@@ -1489,11 +2471,11 @@ def rule_address_refreshed(ctx: Ctx) -> None:
                     ok = any(isinstance(x.call.func, ast.Attribute) and x.call.func.attr == "add_address"
                              and _t(_Run.base(x.call.func.value)) == wt and _t(x.arg(0, "value")) == src_addr for x in path.calls[:i])
                     if not ok and bad is None:
-                        bad = (c.src, path.extra())
+                        bad = (c.src or g.node, path.extra())
             ctx.check(bad is None, "address-refreshed", g, bad[0] if bad else g.node,
                       "a known peer's address is refreshed from the source address of every signed packet before the handler runs",
-                      f"{g.qualname} can hand a known peer to the introduction handlers without peer.add_address({src_addr}): a verified peer whose "
-                      "packets arrive from a new address (NAT mapping changed) keeps its old address, so the introducer hands out that stale WAN "
+                      f"{g.qualname} can hand a known peer to the introduction handlers without peer.add_address(<source address>): a verified peer "
+                      "whose packets arrive from a new address (NAT mapping changed) keeps its old address, so the introducer hands out that stale WAN "
                       "address and sends the puncture request (and its responses) there - the requester's contact attempt reaches nobody"
                       + (f" (path conditions: {bad[1]})" if bad else ""))
     ctx.floor("address-refreshed.known-peer-paths", n_known, 1)
@@ -1505,6 +2487,7 @@ def run(ctx: Ctx) -> None:
     rule_puncture_accompanies(ctx)
     rule_requester_selection(ctx)
     rule_puncture_target(ctx)
+    rule_walkable_offered(ctx)
     ctx.assume("reachability for each NAT type combination depends on NAT mapping/filtering behaviour that only a network model can provide: not decided")
     ctx.assume("address_in_lan_subnets / address_is_lan classify private addresses correctly (not analysed)")
 
@@ -1558,6 +2541,15 @@ WITNESSES = [
     {"name": "known peer's address never refreshed", "file": "ipv8/lazy_community.py", "rule": "address-refreshed",
      "old": "            if peer:\n                peer.add_address(source_address)\n            return func(self, peer or Peer(auth.public_key_bin, source_address), *unpacked)",
      "new": "            return func(self, peer or Peer(auth.public_key_bin, source_address), *unpacked)"},
+    {"name": "puncture request packed for the introducer's own community", "file": CM, "rule": "puncture-accompanies",
+     "old": "            packet = self.create_puncture_request(lan_socket_address, socket_address, identifier, prefix=prefix,\n                                                  new_style=new_style)",
+     "new": "            packet = self.create_puncture_request(lan_socket_address, socket_address, identifier, new_style=new_style)"},
+    {"name": "puncture request ignores its prefix", "file": CM, "rule": "puncture-accompanies",
+     "old": "        return self._ez_pack(prefix or self._prefix, payload.msg_id, [dist, payload], False)",
+     "new": "        return self._ez_pack(self._prefix, payload.msg_id, [dist, payload], False)"},
+    {"name": "walkable addresses exclude every verified peer", "file": "ipv8/peerdiscovery/network.py", "rule": "walkable-offered",
+     "old": "            known = self.get_peers_for_service(service_id) if service_id else self.verified_peers",
+     "new": "            known = self.verified_peers"},
     {"name": "puncture always to WAN", "file": CM, "rule": "puncture-target",
      "old": "        if payload.wan_walker_address[0] == self.my_estimated_wan[0]:\n            target = payload.lan_walker_address\n", "new": ""},
     {"name": "puncture loses identifier", "file": CM, "rule": "puncture-target",
